@@ -28,6 +28,29 @@ theorem omax_idem (x : Option Nat) : omax x x = x := by
 theorem omax_assoc (x y z : Option Nat) : omax (omax x y) z = omax x (omax y z) := by
   cases x <;> cases y <;> cases z <;> simp [omax, Nat.max_assoc]
 
+theorem TKind.beq_iff (a b : TKind) : a.beq b = true ↔ a = b := by
+  cases a <;> cases b <;> simp [TKind.beq]
+
+theorem obeq_iff (a b : Option Nat) : obeq a b = true ↔ a = b := by
+  cases a <;> cases b <;> simp [obeq]
+
+theorem Ty.beq_iff (a b : Ty) : a.beq b = true ↔ a = b := by
+  obtain ⟨ka, ba⟩ := a
+  obtain ⟨kb, bb⟩ := b
+  simp [Ty.beq, TKind.beq_iff, obeq_iff]
+
+theorem tysBeq_iff : ∀ (a b : List Ty), tysBeq a b = true ↔ a = b
+  | [], [] => by simp [tysBeq]
+  | [], _ :: _ => by simp [tysBeq]
+  | _ :: _, [] => by simp [tysBeq]
+  | x :: xs, y :: ys => by simp [tysBeq, Ty.beq_iff, tysBeq_iff xs ys]
+
+theorem Kind.beq_iff (a b : Kind) : a.beq b = true ↔ a = b := by
+  cases a <;> cases b <;> simp [Kind.beq, Kind.ctorIdx]
+
+theorem VC.beq_iff (a b : VC) : a.beq b = true ↔ a = b := by
+  cases a <;> cases b <;> simp [VC.beq, VC.ctorIdx]
+
 /-- `Type.max` in closed form: the operand of the larger kind wins outright; within one kind the widths are
 maximised with "unsized" at the bottom.  (So an operand of a smaller kind, or an unsized one, never contributes.) -/
 theorem Ty.max_eq (a b : Ty) :
@@ -37,7 +60,7 @@ theorem Ty.max_eq (a b : Ty) :
   obtain ⟨ka, ba⟩ := a
   obtain ⟨kb, bb⟩ := b
   cases ka <;> cases kb <;> cases ba <;> cases bb <;>
-    simp [Ty.max, maxBits, omax, TKind.rank, List.filter, List.filterMap] <;>
+    simp [Ty.max, Ty.beq, Ty.cand, TKind.beq, obeq, maxBits, omax, TKind.rank] <;>
     (intro h; simp [h])
 
 theorem Ty.max_comm (a b : Ty) : a.max b = b.max a := by
@@ -47,7 +70,8 @@ theorem Ty.max_comm (a b : Ty) : a.max b = b.max a := by
   cases ka <;> cases kb <;> simp [TKind.rank, omax_comm]
 
 theorem Ty.max_idem (a : Ty) : a.max a = a := by
-  simp [Ty.max]
+  have : a.beq a = true := (Ty.beq_iff a a).mpr rfl
+  simp [Ty.max, this]
 
 theorem Ty.max_assoc (a b c : Ty) : (a.max b).max c = a.max (b.max c) := by
   obtain ⟨ka, ba⟩ := a
@@ -104,7 +128,7 @@ theorem complexPart_halves (t u : Ty) (h : t.complexPart = some u) :
   split at h
   · rename_i hk
     split at h
-    · cases h; exact ⟨hk, rfl, rfl⟩
+    · cases h; exact ⟨(TKind.beq_iff _ _).mp hk, rfl, rfl⟩
     · cases h
   · cases h
 
@@ -117,11 +141,11 @@ theorem complexPart_complexify (t c : Ty) (hk : t.kind = .float) (hv : t.valid =
   split at h
   · cases h
     cases bits with
-    | none => simp [Ty.complexPart, Ty.mk?, validBits]
+    | none => simp [Ty.complexPart, Ty.mk?, validBits, TKind.beq]
     | some n =>
       have : n * 2 / 2 = n := by omega
-      simp [Ty.complexPart, Ty.mk?, this]
-      exact hv
+      simp only [Ty.valid] at hv
+      simp [Ty.complexPart, Ty.mk?, this, TKind.beq, hv]
   · cases h
 
 /-- and complexification undoes `complex_part` wherever `complex_part` is defined. -/
@@ -130,7 +154,8 @@ theorem complexify_complexPart (c t : Ty) (hv : c.valid = true) (h : c.complexPa
   unfold Ty.complexPart Ty.mk? at h
   split at h
   · rename_i hk
-    simp only at hk; subst hk
+    have hk' := (TKind.beq_iff _ _).mp hk
+    simp only at hk'; subst hk'
     split at h
     · rename_i hb
       cases h
@@ -138,11 +163,11 @@ theorem complexify_complexPart (c t : Ty) (hv : c.valid = true) (h : c.complexPa
       | none => simp [Ty.complexify, Ty.mk?, validBits]
       | some n =>
         simp only [Option.map_some] at hb
+        simp only [Ty.valid] at hv
         have hn := validBits_cases hv
         have hh := validBits_cases hb
         have : n / 2 * 2 = n := by omega
-        simp [Ty.complexify, Ty.mk?, this]
-        exact hv
+        simp [Ty.complexify, Ty.mk?, this, hv]
     · cases h
   · cases h
 
@@ -280,50 +305,53 @@ end Induction
 
 /-! ## From table facts to per-node obligations -/
 
-/-- status as a function of the row key and its static type -/
-def Tables.statusOf (T : Tables) (k : Kind) (idx : Nat) (args : List Ty) (ty : Option Ty) : Status :=
-  T.status ⟨k, idx, args, ty, none⟩
+theorem Status.isDisagree_iff (s : Status) : s.isDisagree = true ↔ s = .disagree := by
+  cases s <;> simp [Status.isDisagree]
 
-theorem Tables.status_eq (T : Tables) (r : SRow) : T.status r = T.statusOf r.kind r.idx r.args r.ty := by
-  unfold Tables.statusOf Tables.status; rfl
+theorem Status.isAgree_iff (s : Status) : s.isAgree = true ↔ s = .agree := by
+  cases s <;> simp [Status.isAgree]
 
-/-- Row facts, checked by `decide` on the regenerated tables:
-the hand port agrees with the real `get_type` on the row, and a well-typed row without a known cause does not disagree. -/
-def Tables.rowFact (T : Tables) (r : SRow) : Bool :=
-  (nodeTy r.kind (r.args.map some) == r.ty) && T.partialRow r
+theorem otyBeq_iff (a b : Option Ty) : otyBeq a b = true ↔ a = b := by
+  cases a <;> cases b <;> simp [otyBeq, Ty.beq_iff]
 
-def Tables.rowsOK (T : Tables) : Bool := T.allRows T.rowFact
+theorem oboolBeq_iff (a b : Option Bool) : oboolBeq a b = true ↔ a = b := by
+  cases a <;> cases b <;> simp [oboolBeq]
+
+/-- Row facts, checked by `decide +kernel` on the regenerated tables: `T.allRows modelRow` (the hand port agrees with the
+real `get_type` / `is_complex` on every row) and `T.allRows T.rowCheck` (per-row agreement). -/
+def Tables.rowsOK (T : Tables) : Prop := T.allRows modelRow = true ∧ T.allRows T.rowCheck = true
 
 theorem allRows_mem (T : Tables) (f : SRow → Bool) (h : T.allRows f = true) : ∀ r ∈ T.static, f r = true := by
   intro r hr
   unfold Tables.static at hr
-  obtain ⟨c, hc, hrc⟩ := List.mem_flatten.mp hr
-  exact List.all_eq_true.mp (List.all_eq_true.mp h c hc) r hrc
+  obtain ⟨k, hk, hrk⟩ := List.mem_flatMap.mp hr
+  exact List.all_eq_true.mp (List.all_eq_true.mp h k hk) r hrk
 
 /-- Leaf facts: an argument cast / a printed constant yields the dtype the (like's) static type is printed as,
 or raises; the static type of a constant is its like's type. -/
 def okObs (T : Tables) (t : Ty) (obs : List Ty) : Bool :=
   match obs with
   | [] => true
-  | [d] => T.canonTy t == some d
+  | [d] => otyBeq (T.canonTy t) (some d)
   | _ => false
 
 def Tables.leavesOK (T : Tables) : Bool :=
-  T.symbols.all (fun r => okObs T r.ty r.obs) && T.consts.all (fun r => okObs T r.like r.obs && (r.ty == some r.like || r.ty == none))
+  T.symbols.all (fun r => okObs T r.ty r.obs) &&
+  T.consts.all (fun r => okObs T r.like r.obs && (otyBeq r.ty (some r.like) || otyBeq r.ty none))
 
 /-- Decidable coverage of one node: its row is in the table, is a well-typed use, has no known deviation, and its
 static type (if any) can be printed. -/
 def Tables.nodeCovered (T : Tables) (senv : List (Option Ty)) : Node → Bool
-  | .symbol t => T.symbols.any (fun r => r.ty == t)
+  | .symbol t => T.symbols.any (fun r => r.ty.beq t)
   | .const vc l =>
     match senv.getD l none with
-    | some t => T.consts.any (fun r => r.vc == vc && r.like == t)
+    | some t => T.consts.any (fun r => r.vc.beq vc && r.like.beq t)
     | none => true
   | .op k idx as =>
     match allSome (as.map (fun a => senv.getD a none)) with
     | none => false
     | some ts =>
-      T.static.any (fun r => r.kind == k && r.idx == idx && r.args == ts) &&
+      T.kinds.any (·.beq k) && (T.rowAt k idx ts).isSome &&
       wtRow k ts && (cause k idx ts).isNone &&
       (match nodeTy k (ts.map some) with | some t => (T.canonTy t).isSome | none => true)
 
@@ -365,28 +393,63 @@ theorem allSome_eq_some {l : List (Option Ty)} {ts : List Ty} (h : allSome l = s
         subst h
         simp [ih hx]
 
-theorem opAgree_of_row (T : Tables) (hrows : T.rowsOK = true) (k : Kind) (idx : Nat) (ts : List Ty)
-    (hmem : T.static.any (fun r => r.kind == k && r.idx == idx && r.args == ts) = true)
+/-- a row found by position is a row of the table with the requested key -/
+theorem rowAt_mem (T : Tables) (k : Kind) (idx : Nat) (ts : List Ty) (r : SRow) (hk : k ∈ T.kinds)
+    (h : T.rowAt k idx ts = some r) : r ∈ T.static ∧ r.kind = k ∧ r.idx = idx ∧ r.args = ts := by
+  unfold Tables.rowAt at h
+  cases hcs : allSome (ts.map T.ucode) with
+  | none => rw [hcs] at h; simp at h
+  | some cs =>
+    rw [hcs] at h
+    simp only [Option.bind_some] at h
+    split at h
+    · rename_i r' hget
+      split at h
+      · rename_i hkey
+        simp only [Option.some.injEq] at h
+        subst h
+        simp only [Bool.and_eq_true, beq_iff_eq] at hkey
+        obtain ⟨⟨h1, h2⟩, h3⟩ := hkey
+        refine ⟨?_, (Kind.beq_iff _ _).mp h1, h2, (tysBeq_iff _ _).mp h3⟩
+        unfold Tables.static
+        exact List.mem_flatMap.mpr ⟨k, hk, List.mem_of_getElem? hget⟩
+      · cases h
+    · cases h
+
+theorem partial_of_rowCheck (T : Tables) (r : SRow) (h : T.rowCheck r = true) (hwt : wtRow r.kind r.args = true)
+    (hc : cause r.kind r.idx r.args = none) : T.status r ≠ .disagree := by
+  intro hd
+  simp [Tables.rowCheck, hwt, hd, hc] at h
+
+theorem exact_of_rowCheck (T : Tables) (r : SRow) (h : T.rowCheck r = true) (hwt : wtRow r.kind r.args = true)
+    (hst : T.status r = .agree ∨ T.status r = .disagree) :
+    (T.status r = .disagree ↔ (cause r.kind r.idx r.args).isSome = true) := by
+  rcases hst with hst | hst <;> simp [Tables.rowCheck, hwt, hst] at h ⊢
+  · cases hc : cause r.kind r.idx r.args <;> simp_all
+  · exact h
+
+theorem opAgree_of_row (T : Tables) (hrows : T.rowsOK) (k : Kind) (idx : Nat) (ts : List Ty)
+    (hk : T.kinds.any (·.beq k) = true) (hrow : (T.rowAt k idx ts).isSome = true)
     (hwt : wtRow k ts = true) (hc : (cause k idx ts).isNone = true)
     (hp : (match nodeTy k (ts.map some) with | some t => (T.canonTy t).isSome | none => true) = true) :
     OpAgree T.toNP T.canonTy k idx ts := by
   intro t ds d hty hds hsingle
-  obtain ⟨r, hr, hkey⟩ := List.any_eq_true.mp hmem
-  simp only [Bool.and_eq_true, beq_iff_eq] at hkey
-  obtain ⟨⟨hk, hi⟩, ha⟩ := hkey
-  have hf := allRows_mem T T.rowFact hrows r hr
-  unfold Tables.rowFact Tables.partialRow at hf
-  simp only [Bool.and_eq_true, beq_iff_eq, Bool.or_eq_true, Bool.not_eq_true', bne_iff_ne, ne_eq] at hf
-  obtain ⟨hmodel, hstat⟩ := hf
-  rw [hk] at hmodel hstat
-  rw [hi] at hstat
-  rw [ha] at hmodel hstat
+  have hk' : k ∈ T.kinds := by
+    obtain ⟨k', hk1, hk2⟩ := List.any_eq_true.mp hk
+    rw [(Kind.beq_iff _ _).mp hk2] at hk1; exact hk1
+  obtain ⟨r, hr⟩ := Option.isSome_iff_exists.mp hrow
+  obtain ⟨hmem, hrk, hri, hra⟩ := rowAt_mem T k idx ts r hk' hr
+  have hmodel := allRows_mem T modelRow hrows.1 r hmem
+  simp only [modelRow, Bool.and_eq_true] at hmodel
+  have hmodel := (otyBeq_iff _ _).mp hmodel.1
+  have hcheck := allRows_mem T T.rowCheck hrows.2 r hmem
+  rw [hrk, hra] at hmodel
   rw [hty] at hmodel hp
-  have hnd : T.status r ≠ .disagree := by
-    rcases hstat with (h | h) | h
-    · rw [hwt] at h; cases h
-    · rw [Option.isNone_iff_eq_none] at hc; rw [hc] at h; cases h
-    · exact h
+  have hnd0 : T.status r ≠ .disagree :=
+    partial_of_rowCheck T r hcheck (by rw [hrk, hra]; exact hwt)
+      (by rw [hrk, hri, hra]; exact Option.isNone_iff_eq_none.mp hc)
+  have hnd : (T.status r).isDisagree = false := by
+    cases hs : T.status r <;> simp_all [Status.isDisagree]
   -- unfold the status of the row
   unfold Tables.status at hnd
   rw [← hmodel] at hnd
@@ -395,9 +458,8 @@ theorem opAgree_of_row (T : Tables) (hrows : T.rowsOK = true) (k : Kind) (idx : 
   | none => simp [hct] at hp
   | some ct =>
     simp only [hct] at hnd
-    rw [ha, hds, hk, hi] at hnd
+    rw [hra, hds, hrk, hri] at hnd
     simp only [Option.bind_some] at hnd
-    -- the oracle at this row
     have hop : T.toNP.op k idx ds = (T.npLookup k idx ds).getD [] := rfl
     rw [hop] at hsingle
     cases hl : T.npLookup k idx ds with
@@ -411,12 +473,12 @@ theorem opAgree_of_row (T : Tables) (hrows : T.rowsOK = true) (k : Kind) (idx : 
         simp only [Option.some.injEq] at hsingle
         subst hsingle
         simp only at hnd
-        by_cases hcd : ct = d'
-        · rw [hcd]
-        · simp [hcd] at hnd
+        by_cases hcd : ct.beq d' = true
+        · rw [(Ty.beq_iff _ _).mp hcd]
+        · simp [hcd, Status.isDisagree] at hnd
       · cases hsingle
 
-theorem nodeOK_of_covered (T : Tables) (hrows : T.rowsOK = true) (hleaves : T.leavesOK = true)
+theorem nodeOK_of_covered (T : Tables) (hrows : T.rowsOK) (hleaves : T.leavesOK = true)
     (senv : List (Option Ty)) (n : Node) (h : T.nodeCovered senv n = true) : NodeOK T.toNP T.canonTy senv n := by
   unfold Tables.leavesOK at hleaves
   simp only [Bool.and_eq_true] at hleaves
@@ -424,18 +486,17 @@ theorem nodeOK_of_covered (T : Tables) (hrows : T.rowsOK = true) (hleaves : T.le
   cases n with
   | symbol t =>
     intro d hd
-    obtain ⟨r, hr, hp, hobs⟩ := find?_obs_single T.symbols (fun r => r.ty == t) (·.obs) d hd
+    obtain ⟨r, hr, hp, hobs⟩ := find?_obs_single T.symbols (fun r => r.ty.beq t) (·.obs) d hd
     have := List.all_eq_true.mp hsym r hr
-    simp only [beq_iff_eq] at hp
-    rw [hobs, hp] at this
-    simpa [okObs] using this
+    rw [hobs, (Ty.beq_iff _ _).mp hp] at this
+    exact (otyBeq_iff _ _).mp this
   | const vc l =>
     intro t ht d hd
-    obtain ⟨r, hr, hp, hobs⟩ := find?_obs_single T.consts (fun r => r.vc == vc && r.like == t) (·.obs) d hd
+    obtain ⟨r, hr, hp, hobs⟩ := find?_obs_single T.consts (fun r => r.vc.beq vc && r.like.beq t) (·.obs) d hd
     have := List.all_eq_true.mp hconst r hr
-    simp only [Bool.and_eq_true, beq_iff_eq] at hp this
-    rw [hobs, hp.2] at this
-    simpa [okObs] using this.1
+    simp only [Bool.and_eq_true] at hp this
+    rw [hobs, (Ty.beq_iff _ _).mp hp.2] at this
+    exact (otyBeq_iff _ _).mp this.1
   | op k idx as =>
     simp only [Tables.nodeCovered] at h
     cases hm : allSome (as.map (fun a => senv.getD a none)) with
@@ -443,10 +504,10 @@ theorem nodeOK_of_covered (T : Tables) (hrows : T.rowsOK = true) (hleaves : T.le
     | some ts =>
       rw [hm] at h
       simp only [Bool.and_eq_true] at h
-      obtain ⟨⟨⟨hmem, hwt⟩, hc⟩, hp⟩ := h
-      exact ⟨ts, allSome_eq_some hm, opAgree_of_row T hrows k idx ts hmem hwt hc hp⟩
+      obtain ⟨⟨⟨⟨hk, hrow⟩, hwt⟩, hc⟩, hp⟩ := h
+      exact ⟨ts, allSome_eq_some hm, opAgree_of_row T hrows k idx ts hk hrow hwt hc hp⟩
 
-theorem allOK_of_covered (T : Tables) (hrows : T.rowsOK = true) (hleaves : T.leavesOK = true) :
+theorem allOK_of_covered (T : Tables) (hrows : T.rowsOK) (hleaves : T.leavesOK = true) :
     ∀ (ns : List Node) (senv : List (Option Ty)), T.coveredFrom senv ns = true → AllOK T.toNP T.canonTy senv ns := by
   intro ns
   induction ns with
@@ -457,7 +518,7 @@ theorem allOK_of_covered (T : Tables) (hrows : T.rowsOK = true) (hleaves : T.lea
     exact ⟨nodeOK_of_covered T hrows hleaves senv n h.1, ih _ h.2⟩
 
 /-- **Whole-graph agreement from the tables.** -/
-theorem agree_of_covered (T : Tables) (hrows : T.rowsOK = true) (hleaves : T.leavesOK = true) (g : Graph)
+theorem agree_of_covered (T : Tables) (hrows : T.rowsOK) (hleaves : T.leavesOK = true) (g : Graph)
     (hc : T.covered g = true) :
     ∀ i t d, staticTy g i = some t → dynTy T.toNP g i = some d → T.canonTy t = some d :=
   agree_of_allOK T.toNP T.canonTy g (allOK_of_covered T hrows hleaves g [] hc)
